@@ -17,14 +17,23 @@ HexOf(bin, a, b) == Mat_([i \in 1..(2 * (b - a + 1)) |->
                           LET byte == bin[a + (i - 1) \div 2] IN
                           IF i % 2 = 1 THEN HexDigit(byte \div 16) ELSE HexDigit(byte % 16)], 2 * (b - a + 1))
 RECURSIVE HexLinesFrom(_, _)
-HexLinesFrom(bin, a) == IF a > Len(bin) THEN <<>>
+HexLinesFrom(bin, a) == IF a > Len(bin) THEN <<>>                 \* (reference formulation: quadratic in TLC on long inputs)
                         ELSE LET b == IF a + 39 < Len(bin) THEN a + 39 ELSE Len(bin)
                              IN HexOf(bin, a, b) \o <<NLc>> \o HexLinesFrom(bin, b + 1)
+\* the same text character by character: line q (0-based) holds bytes 40q+1 .. 40q+40, 80 digits and a line feed (the last line
+\* is shorter); equal to HexLinesFrom(bin, 1) - checked in MC_Text for every length 0..MaxBin
+HexLines(bin) ==
+    LET n == Len(bin)  nl == (n + 39) \div 40  total == 2 * n + nl IN
+    Mat_([k \in 1..total |->
+            LET q == (k - 1) \div 81  c == (k - 1) % 81
+                inline == IF q = nl - 1 THEN 2 * (n - 40 * q) ELSE 80
+                byte == bin[40 * q + (c \div 2) + 1]
+            IN  IF c = inline THEN NLc ELSE IF c % 2 = 0 THEN HexDigit(byte \div 16) ELSE HexDigit(byte % 16)], total)
 RECURSIVE CommentLinesFrom(_, _)
 CommentLinesFrom(cm, i) == IF i > Len(cm) THEN <<>>
                            ELSE cm[i][1] \o <<58, 32>> \o cm[i][2] \o <<NLc>> \o CommentLinesFrom(cm, i + 1)
 \* canonical text; the writer may add one empty line at the end (it does unless Len(bin) % 40 = 1)
-WriteText(cm, bin) == CommentLinesFrom(cm, 1) \o <<NLc>> \o HexLinesFrom(bin, 1)
+WriteText(cm, bin) == CommentLinesFrom(cm, 1) \o <<NLc>> \o HexLines(bin)
 TextMatches(t, cm, bin) == LET w == WriteText(cm, bin) IN t = w \/ t = w \o <<NLc>>
 Upper80(t, from) == \A i \in from..Len(t) : ~(t[i] \in 97..102)     \* no lower-case hex digits
 ToDisk(t) == LET nls == SelectSeq(Mat_([i \in 1..Len(t) |-> i], Len(t)), LAMBDA i : t[i] = NLc)
